@@ -380,7 +380,7 @@ const Quaternion<T,Unitary> eigen (const Quaternion<T,Hermitian>& q)
 
     Willem van Straten - 30 November 2009
   */
-  if (q.s1 < 0 && q.s0 != 0)
+  if (q.s1 < 0 && (q.s0 != 0 || (q.s2 == 0 && q.s3 == 0)))
   {
     T m = 1.0 / sqrt( 2.0*p*(p-q.s1) );
     return Quaternion<T,Unitary> (m*q.s3, -m*q.s2, -m*(p-q.s1), 0.0);
